@@ -87,7 +87,9 @@ def run_task(task):
             else:
                 gen = ns.gspa.Generator_spa()
                 plec = gen.create_project_lecturers(n2, n3)
-                sl = gen.create_student_lec_lists(lists, plec, n3)
+                # every id a distinct object of equal value, as Python ints above 256 are: comparing ids with `is` must fail here
+                boxed = [S.SymInt(z3.IntVal(int(v))) for v in plec]
+                sl = gen.create_student_lec_lists(lists, boxed, n3)
                 second, sties = g.create_pref_lists_from_other_lists(sl, n3, 0.5)
                 text = gen.create_instance(n1, n2, n3, lists, first_ties, plec, [0] * n2, [n1] * n2,
                                            second, sties, [0] * n3, [0] * n3, [n1] * n3, 'info\n')
